@@ -15,7 +15,7 @@ from fractions import Fraction
 
 PD = 'cherab/openadas/parse/'
 FILES = [PD + 'adf11.py', PD + 'adf12.py', PD + 'adf15.py', PD + 'adf21.py', PD + 'adf22.py', PD + 'utility.py', 'cherab/openadas/install.py',
-         'cherab/core/utility/conversion.py']
+         'cherab/core/utility/conversion.py', PD + '__init__.py']
 REPO = ['cherab/openadas/repository/atomic.py', 'cherab/openadas/repository/pec.py', 'cherab/openadas/repository/radiated_power.py',
         'cherab/openadas/repository/wavelength.py', 'cherab/openadas/repository/beam/cx.py', 'cherab/openadas/repository/beam/stopping.py',
         'cherab/openadas/repository/beam/population.py', 'cherab/openadas/repository/beam/emission.py', 'cherab/openadas/repository/utility.py']
@@ -81,6 +81,21 @@ def check(run):
         run.subject('C08-R6')
         run.undecided('C08-R6', 'converters', 'no object written and handed on per loop iteration was recognised')
     _r8(run, inst)
+    _dispatch(run, inst)
+    from ._purity import miscounted_collection_loops
+    run.describe('C08-R11', 'counted value sections: the counter starts at 0 and advances by one per value collected, and every reading loop can end')
+    for m_ in list(mods.values()) + [inst]:
+        for fname, fn_ in m_.functions.items():
+            nw = [n for n in ast.walk(fn_) if isinstance(n, ast.While)]
+            bad = miscounted_collection_loops(fn_)
+            for n in nw:
+                run.subject('C08-R11')
+                mine = [(x, w) for x, w in bad if n.lineno <= x.lineno <= getattr(n, 'end_lineno', n.lineno) or any(x is p for p in ast.walk(n))]
+                if not mine and not [1 for x, w in bad if x.lineno < n.lineno]:
+                    run.ok('C08-R11', '%s while@%s' % (fname, ast.unparse(n.test)[:40]), sample=False)
+            for x, w in bad:
+                run.fail('C08-R11', '%s|%s|count:%s' % (m_.name, fname, w.split("'")[1] if "'" in w else ''), m_.relpath, x.lineno, '%s: %s' % (fname, w))
+    run.floor("C08-R10", 11)
     from ..cachekey import check_caches
     check_caches(run, list(mods.values()) + [inst], 'C08-K', prog=prog)
     # "installing the file into a repository and reading it back yields the same tables": the repository rules, for the updaters and readers
@@ -1242,6 +1257,10 @@ FORMAT = {
         "rate['QTIEV']": ('rv', '12', '6'), "rate['DENSI']": ('rv', '24', '6'), "rate['QDENSI']": ('rv', '24', '6'), "rate['ZEFF']": ('rv', '12', '6'),
         "rate['QZEFF']": ('rv', '12', '6'), "rate['BMAG']": ('rv', '12', '6'), "rate['QBMAG']": ('rv', '12', '6')},
     ('adf12', 'parse_adf12'): {'rate_count': ('3', '5')},
+    # ADF11 header line: nuclear charge, number of densities, number of temperatures, (z_min, z_max: read but unused), element name;
+    # then the density vector followed by the temperature vector
+    ('adf11', 'parse_adf11'): {'z_nuclear': ('ix', '0'), 'n_densities': ('ix', '1'), 'n_temperatures': ('ix', '2'), 'element_name': ('ix', '5'),
+                               'densities': (None, 'n_densities'), 'temperatures': ('n_densities', None)},
 }
 # sections cut to the number of points the block header announces: field -> (first index, count variable position in the header)
 ADF12_CUT = {"rate['ENER']": 0, "rate['QENER']": 0, "rate['TIEV']": 1, "rate['QTIEV']": 1, "rate['DENSI']": 2, "rate['QDENSI']": 2,
@@ -1266,6 +1285,8 @@ def _format_tables(run, mods):
                 if isinstance(x, ast.Subscript) and isinstance(x.slice, ast.Slice) and isinstance(x.value, (ast.Name, ast.Call)) \
                         and not (isinstance(x.value, ast.Call) and dotted(x.value.func) == 'readvalues'):
                     got.setdefault(tg, []).append((norm(x.slice.lower) if x.slice.lower is not None else None, norm(x.slice.upper) if x.slice.upper is not None else None))
+                if isinstance(x, ast.Subscript) and isinstance(x.slice, ast.Constant) and isinstance(x.slice.value, int) and isinstance(x.value, ast.Name):
+                    got.setdefault(tg, []).append(('ix', str(x.slice.value)))
                 if isinstance(x, ast.Call) and dotted(x.func) == 'readvalues' and len(x.args) >= 3:
                     got.setdefault(tg, []).append(('rv', norm(x.args[1]), norm(x.args[2])))
         for field, want in sorted(table.items()):
@@ -1306,6 +1327,95 @@ def _format_tables(run, mods):
                 else:
                     run.undecided('C08-R9', '_parse_block %s cut' % field, '[%s:%s]' % (lo, hi))
     run.floor('C08-R9', 20)
+
+
+def _dispatch(run, inst):
+    """C08-R10: install_files maps a configuration key to the install route of that name, passing the caller's options under their own names."""
+    run.describe('C08-R10', "install_files: the route called under the test for configuration key 'K' is install_K, every anchored route is "
+                            "dispatched, and download / repository_path / adas_path are forwarded under their own names")
+    fn = dict.get(inst.functions, 'install_files')
+    if fn is None:
+        return
+    K = 'cherab.openadas.install|install_files|'
+    seen = {}
+
+    def lits(test):
+        """([literals required equal], [literals required different]) by a test on the configuration key"""
+        eq, ne = [], []
+        if isinstance(test, ast.BoolOp) and isinstance(test.op, ast.And):
+            for v in test.values:
+                a, b = lits(v)
+                eq += a; ne += b
+        elif isinstance(test, ast.Compare) and len(test.ops) == 1:
+            l, r = test.left, test.comparators[0]
+            for x, y in ((l, r), (r, l)):
+                if isinstance(y, ast.Constant) and isinstance(y.value, str) and not isinstance(x, ast.Constant):
+                    (eq if isinstance(test.ops[0], ast.Eq) else ne if isinstance(test.ops[0], ast.NotEq) else []).append(y.value)
+            if isinstance(test.ops[0], (ast.In, ast.NotIn)) and isinstance(r, (ast.Tuple, ast.List, ast.Set)) \
+                    and all(isinstance(e, ast.Constant) and isinstance(e.value, str) for e in r.elts) and len(r.elts) == 1:
+                (eq if isinstance(test.ops[0], ast.In) else ne).append(r.elts[0].value)
+        elif isinstance(test, ast.UnaryOp) and isinstance(test.op, ast.Not):
+            a, b = lits(test.operand)
+            if len(a) + len(b) == 1:
+                return b, a
+            return [], []
+        return eq, ne
+
+    def walk(stmts, eq, ne):
+        for st in stmts:
+            if isinstance(st, ast.If):
+                a, b = lits(st.test)
+                walk(st.body, eq + a, ne + b)
+                walk(st.orelse, eq + (b if len(a) + len(b) == 1 else []), ne + (a if len(a) + len(b) == 1 else []))
+            elif isinstance(st, (ast.For, ast.While, ast.With, ast.Try)):
+                for blk in ('body', 'orelse', 'finalbody'):
+                    walk(getattr(st, blk, []) or [], eq, ne)
+                for h in getattr(st, 'handlers', []) or []:
+                    walk(h.body, eq, ne)
+            else:
+                for c in ast.walk(st):
+                    if isinstance(c, ast.Call) and isinstance(c.func, ast.Name) and c.func.id in ROUTES:
+                        seen.setdefault(c.func.id, []).append((c, list(eq), list(ne)))
+    walk(fn.body, [], [])
+    # table form: {'adf11scd': install_adf11scd, ...}
+    for d in [n for n in ast.walk(fn) if isinstance(n, ast.Dict)] + [v for v in inst.assigns.values() if isinstance(v, ast.Dict)]:
+        for k, v in zip(d.keys, d.values):
+            if isinstance(k, ast.Constant) and isinstance(k.value, str) and isinstance(v, ast.Name) and v.id in ROUTES:
+                seen.setdefault(v.id, []).append((None, [k.value], []))
+                if 'install_' + k.value.lower() != v.id:
+                    run.subject('C08-R10')
+                    run.fail('C08-R10', K + 'table:' + v.id, inst.relpath, getattr(k, 'lineno', fn.lineno),
+                             "the dispatch table maps configuration key '%s' to %s" % (k.value, v.id))
+    for route in ROUTES:
+        run.subject('C08-R10')
+        kind = route[len('install_'):]
+        uses = seen.get(route)
+        if not uses:
+            if seen:
+                run.fail('C08-R10', K + 'missing:' + route, inst.relpath, fn.lineno,
+                         'install_files dispatches %d routes but never calls %s: files of that type in a configuration are silently skipped' % (len(seen), route))
+            else:
+                run.undecided('C08-R10', route, 'no dispatch of the install routes recognised in install_files')
+            continue
+        bad = None
+        for call, eq, ne in uses:
+            if any(e.lower() != kind for e in eq):
+                bad = "is called under the test for configuration key '%s'" % [e for e in eq if e.lower() != kind][0]
+            elif any(e.lower() == kind for e in ne):
+                bad = "is called when the configuration key is NOT '%s'" % kind
+            elif call is not None:
+                for kw in call.keywords:
+                    if kw.arg in ('download', 'repository_path', 'adas_path') and isinstance(kw.value, ast.Name) \
+                            and kw.value.id in ('download', 'repository_path', 'adas_path') and kw.value.id != kw.arg:
+                        bad = "is given %s=%s" % (kw.arg, kw.value.id)
+            if bad:
+                run.fail('C08-R10', K + route, inst.relpath, call.lineno if call is not None else fn.lineno, 'install_files: %s %s' % (route, bad))
+                break
+        if not bad:
+            if any(eq for _, eq, _ in uses):
+                run.ok('C08-R10', route, "called for configuration key '%s'" % kind)
+            else:
+                run.undecided('C08-R10', route, 'the condition under which install_files calls it is not a comparison of the key with a literal')
 
 
 def _readvalues(run, mu, rv0):
